@@ -1,7 +1,7 @@
 """C02 - LTL model checking returns exactly the states whose every path satisfies g."""
 from .. import core, fm, km, mc, ref
 from ..core import Failure
-from .c01 import minimise, NAMINGS
+from .c01 import minimise, NAMINGS, scope_iter
 
 FORMS = ['obj', 'text', 'str', 'ctls']
 
@@ -114,11 +114,11 @@ def enum_shard(st, shard, nshards, payload):
         paths = fm.ltl_paths(k)
         objs = [fm.to_lib(('A', g), L) for g in paths]
         cls = [classes_of(g) for g in paths]
-        for K in km.scope(n):
+        for K in scope_iter(n, stride, nshards):
             idx += 1
             if idx % nshards != shard:
                 continue
-            if stride > 1 and (idx // nshards) % stride != 0:
+            if n < 4 and stride > 1 and (idx // nshards) % stride != 0:
                 continue
             M = ref.Model(K)
             naming = NAMINGS[idx % len(NAMINGS)]
@@ -167,12 +167,13 @@ def run(ctx):
                 'differs from the propositional evaluation of g with temporal subformulas read '
                 'as false and as true.')
     if ctx.thorough:
-        scopes = [(1, 2, 1), (2, 2, 1), (3, 1, 1)]
-        ctx.scopes = ['S(1)+S(2) x LTL path k<=2 (4324 formulas)', 'S(3) x k<=1 (100 formulas)']
+        scopes = [(1, 2, 1), (2, 2, 1), (3, 1, 1), (4, 1, 4001)]
+        ctx.scopes = ['S(1)+S(2) x LTL path k<=2 (4324 formulas)', 'S(3) x k<=1 (100 formulas)',
+                      'every 4001st of S(4) x k<=1']
     else:
-        scopes = [(1, 2, 1), (2, 1, 1), (2, 2, 12), (3, 1, 24)]
+        scopes = [(1, 2, 1), (2, 1, 1), (2, 2, 12), (3, 1, 24), (4, 1, 60013)]
         ctx.scopes = ['S(1) x k<=2', 'S(2) x k<=1', 'every 12th of S(2) x k<=2',
-                      'every 24th of S(3) x k<=1']
+                      'every 24th of S(3) x k<=1', 'every 60013th of S(4) x k<=1']
     ctx.exhaustive = True
     ctx.assumptions = ['reference semantics vp/ref.py (R-STAR certified by R-PATH) is the trusted base',
                        'formulas are bounded to <= 3 temporal operators because the tableau under '
